@@ -366,10 +366,20 @@ Section Enc.
                            | None => None
                            end
                end) l []
+        | IIris false None => Some []                                (* IsNil: the nil IRI list is skipped in every item position *)
         | IIris _ None | IIris _ (Some []) => Some (B "[]")
         | IIris _ (Some l) => Some (x5b :: join_with comma (map w_quoted_always l) ++ [x5d])
         end
     end.
 
   Definition marshal_json (i : item) : option bytes := enc_item (S (item_size i)) i.
+
+  (* MarshalJSON called on the value itself: no IsNil test stands in front of the method, so the nil IRI "-" is written as a
+     string and the nil IRI list as the empty array; in an item position (enc_item) both are skipped *)
+  Definition marshal_root (i : item) : option bytes :=
+    match i with
+    | IIri _ s => Some (w_quoted s)
+    | IIris false None => Some (B "[]")
+    | _ => marshal_json i
+    end.
 End Enc.
